@@ -64,8 +64,7 @@ func firstBad(text []byte) int {
 
 // strClass names the kind of character at which two strings part.
 func strClass(want, got string) string {
-	wp := wref.ReplPerByte(want)
-	// walk want (raw) and the per-byte replaced form in step
+	// walk want (raw) and got (replaced form) in step
 	i, j := 0, 0
 	for i < len(want) && j < len(got) {
 		r, n := utf8.DecodeRuneInString(want[i:])
@@ -79,7 +78,6 @@ func strClass(want, got string) string {
 		i += n
 		j += len(enc)
 	}
-	_ = wp
 	if i >= len(want) {
 		return "tail"
 	}
